@@ -357,6 +357,81 @@ theorem toGeopandas_eq (coll : List Shape) (incl : Option (List String)) :
     intro s _
     rcases incl with _ | _ | ⟨b, l⟩ <;> rfl
 
+/-! ## GeoPandas: `from_geopandas` (row loop, `conv_map` dispatch, property columns) -/
+
+/-- `_get_dt` of `from_geopandas` only returns what a shape constructor accepts as `dt` -/
+theorem gpdGetDt_range (fs fe : String) (rec : Dict PVal) (v : V) (h : SrcIo.gpdGetDt fs fe rec = .ok v) :
+    ∃ d, dtOfArg v = .ok d := by
+  revert v
+  unfold SrcIo.gpdGetDt V.get
+  rcases dictGet rec fs with _ | s <;> rcases dictGet rec fe with _ | e
+  · intro v h; simp [V.isNull, V.isInst, pure, Except.pure] at h; subst h; exact ⟨_, rfl⟩
+  · cases e <;> intro v h <;>
+      simp [V.truthy, V.isNull, V.isInst, PVal.tag, V.mkTI, pure, Except.pure] at h <;>
+      (try split_ifs at h) <;> (try subst v) <;> (try simp_all [dtOfArg]) <;> (try (rw [← h]; simp [dtOfArg]))
+  · cases s <;> intro v h <;>
+      simp [V.truthy, V.isNull, V.isInst, PVal.tag, V.mkTI, pure, Except.pure] at h <;>
+      (try split_ifs at h) <;> (try subst v) <;> (try simp_all [dtOfArg]) <;> (try (rw [← h]; simp [dtOfArg]))
+  · cases s <;> cases e <;> intro v h <;>
+      simp [V.truthy, V.isNull, V.isInst, PVal.tag, V.mkTI, pure, Except.pure] at h <;>
+      (try split_ifs at h) <;> (try subst v) <;> (try simp_all [dtOfArg]) <;> (try (rw [← h]; simp [dtOfArg]))
+
+/-- the property columns: every column but the two time fields (the frame's `columns` are without `geometry`) -/
+theorem propFields_contains (cols : List String) (fs fe k : String) (hgeo : "geometry" ∉ cols) :
+    (cols.filter fun x => !(x == fs || x == fe || x == "geometry")).contains k =
+      (cols.contains k && k != fs && k != fe) := by
+  rw [Bool.eq_iff_iff]
+  simp only [List.contains_iff_mem, List.mem_filter, Bool.and_eq_true, bne_iff_ne, Bool.not_eq_true', Bool.or_eq_false_iff,
+    beq_eq_false_iff_ne, ne_eq]
+  constructor
+  · rintro ⟨hk, ⟨h1, h2⟩, _⟩; exact ⟨⟨hk, h1⟩, h2⟩
+  · rintro ⟨⟨hk, h1⟩, h2⟩; exact ⟨hk, ⟨h1, h2⟩, fun h => hgeo (h ▸ hk)⟩
+
+theorem gloop1_step (fs fe : String) (cm : List (String × Kind)) (pf cols : List String)
+    (hcm : ∀ t, dictGet cm t = convMap t) (hpf : ∀ k, pf.contains k = (cols.contains k && k != fs && k != fe))
+    (shapes : List Shape) (r : GpdRowR) :
+    SrcIo.fromGeopandas.loop1 fs fe cm pf shapes r = (fromGpdRow cols fs fe r).map (shapes ++ [·]) := by
+  unfold SrcIo.fromGeopandas.loop1 fromGpdRow classGet
+  simp only [hcm, hpf]
+  cases hk : convMap r.geomType with
+  | none => rfl
+  | some k =>
+    simp only [Option.isNone_some, Bool.false_eq_true, if_false, ok_bind]
+    rw [← gpdGetDt_eq]
+    cases hd : SrcIo.gpdGetDt fs fe r.cells with
+    | error e => rfl
+    | ok v =>
+      obtain ⟨d, hdv⟩ := gpdGetDt_range fs fe r.cells v hd
+      simp only [ok_bind, fromWktV, hdv, bind, Except.bind, pure, Except.pure]
+      cases fromGI k r.wkt <;> rfl
+
+theorem gloop1_eq (fs fe : String) (cm : List (String × Kind)) (pf cols : List String)
+    (hcm : ∀ t, dictGet cm t = convMap t) (hpf : ∀ k, pf.contains k = (cols.contains k && k != fs && k != fe)) :
+    ∀ (rows : List GpdRowR) (shapes : List Shape),
+      List.foldlM (SrcIo.fromGeopandas.loop1 fs fe cm pf) shapes rows =
+        (mapExcept (fromGpdRow cols fs fe) rows).map (shapes ++ ·) := by
+  intro rows
+  induction rows with
+  | nil => intro shapes; simp [List.foldlM, mapExcept, Except.map, pure, Except.pure]
+  | cons r rest ih =>
+    intro shapes
+    rw [List.foldlM_cons, gloop1_step fs fe cm pf cols hcm hpf, mapExcept]
+    cases fromGpdRow cols fs fe r with
+    | error e => rfl
+    | ok sh =>
+      simp only [Except.map, ok_bind, bind, Except.bind]
+      rw [ih]
+      cases mapExcept (fromGpdRow cols fs fe) rest <;> simp [Except.map, pure, Except.pure]
+
+/-- **`CollectionBase.from_geopandas`, translated, reads what the model's `fromGeopandas` reads** (the channel's
+    `columns` are the columns other than `geometry`) -/
+theorem fromGeopandas_eq (f : GpdFrameR) (fs fe : String) (hgeo : "geometry" ∉ f.columns) :
+    SrcIo.fromGeopandas f fs fe = GV.Io.fromGeopandas f fs fe := by
+  unfold SrcIo.fromGeopandas GV.Io.fromGeopandas
+  simp only [List.map_id']
+  rw [gloop1_eq fs fe _ _ f.columns convLit_eq (fun k => propFields_contains f.columns fs fe k hgeo)]
+  cases mapExcept _ _ <;> simp [Except.map, bind, Except.bind, pure, Except.pure]
+
 /-! ## the importers with the translated helpers in place, and the headline theorems restated for them
 
 `from_shapefile` / `from_geopandas` as `Model/Io.lean` has them, except that the time bounds of a row are what the
@@ -427,11 +502,20 @@ example (ch : ShpFileW → ShpFileR) : ∀ files : List ShpFileW,
   | nil => rfl
   | cons f rest ih => simpa using ih
 
+/-- `gpd_roundtrip_partial` for the translated exporter (`to_geopandas`) and importer (`from_geopandas`, whole, with its
+    `_get_dt`).  `hgeo`: no property of the collection is called `geometry` (the frame's `columns` are the columns other
+    than the geometry column) -/
 theorem gpd_roundtrip_partial_src (ch : GpdFrameW → GpdFrameR) (hch : ∀ w, ch w = idealGpd w)
-    (coll : List Shape) (hwf : ∀ s ∈ coll, GpdShapeWF s) :
-    ∃ w back, toGeopandas none coll = .ok w ∧ srcFromGeopandas (ch w) = .ok back ∧
+    (coll : List Shape) (hwf : ∀ s ∈ coll, GpdShapeWF s)
+    (hgeo : ∀ w, GV.Io.toGeopandas none coll = .ok w → "geometry" ∉ (ch w).columns) :
+    ∃ w back, SrcIo.toGeopandas coll none = .ok w ∧
+      SrcIo.fromGeopandas (ch w) "datetime_start" "datetime_end" = .ok back ∧
       List.Forall₂ (GpdBackRel w.rows) coll back := by
   obtain ⟨w, back, h1, h2, h3⟩ := gpd_roundtrip_partial ch hch coll hwf
-  exact ⟨w, back, h1, by rw [srcFromGeopandas_eq]; exact h2, h3⟩
+  exact ⟨w, back, by rw [toGeopandas_eq]; exact h1, by rw [fromGeopandas_eq _ _ _ (hgeo w h1)]; exact h2, h3⟩
+
+/-- `hgeo` holds of a non-trivial collection -/
+example : "geometry" ∉ (idealGpd ⟨[[("name", PVal.str "a"), ("n", PVal.int 1)]], [⟨"Point", [[[[0, 0]]]]⟩]⟩).columns := by
+  decide
 
 end GV.C20Src
